@@ -230,6 +230,75 @@ fn run_packets(pk: &mut Pk, stream: &[u8], cuts: &[usize], with_handshake: bool)
     h
 }
 
+/// A TLS worker pool driven in lock-step: one segment is dispatched, the owning worker is
+/// awaited at its `WorkerProcessed` point (logical drain, not wall time), and -- for a seeded part
+/// of the segments -- the pool is then left idle for several worker time-outs before the next
+/// segment follows, as a real connection does between two segments of one hello.
+struct Wp {
+    h: crate::pool::Handle,
+    cfg: crate::pool::PoolCfg,
+}
+
+impl Wp {
+    fn new(cfg: crate::pool::PoolCfg) -> Result<Wp, String> {
+        Ok(Wp { h: crate::pool::Handle::new(crate::pool::PoolKind::Tls, &cfg, crate::pool::Filters::none())?, cfg })
+    }
+}
+
+fn run_workers(wp: &Wp, pk: &mut Pk, stream: &[u8], cuts: &[usize], with_handshake: bool, idle_mask: u64) -> History {
+    let ep = pk.next();
+    let mut h = History { outs: Vec::new(), anomalies: Vec::new(), extra_results: 0, stalled: false };
+    let isn = 0x0100_0000u32.wrapping_mul(pk.episodes).wrapping_add(0xffff_ff00);
+    let mut s = Script::new(ep.clone(), Link::Ethernet, isn, 0x5000_0000);
+    if with_handshake {
+        s.handshake();
+    }
+    let pre = s.frames.len();
+    s.c_stream(stream, cuts);
+    crate::pool::reset_log(0, 0);
+    let crate::pool::Handle::Tls(_, rx) = &wp.h else {
+        h.stalled = true;
+        return h;
+    };
+    let t0 = std::time::Instant::now();
+    let mut queued = 0u64;
+    for (i, f) in s.frames.iter().enumerate() {
+        if !wp.h.dispatch(f.clone()) {
+            // nothing else is in flight and the queue holds 64 frames: not expected
+            h.stalled = true;
+            return h;
+        }
+        queued += 1;
+        if !crate::pool::wait_processed(queued, std::time::Duration::from_secs(30)) {
+            h.stalled = true;
+            return h;
+        }
+        if idle_mask >> (i % 64) & 1 == 1 {
+            std::thread::sleep(std::time::Duration::from_millis(wp.cfg.timeout_ms * 4 + 2));
+        }
+        let mut got: Vec<String> = Vec::new();
+        for o in rx.try_iter() {
+            if o.source.ip != ep.client || o.source.port != ep.cport || o.destination.ip != ep.server || o.destination.port != ep.sport {
+                h.anomalies.push(format!("result attributed to {}:{}>{}:{} instead of {}", o.source.ip, o.source.port, o.destination.ip, o.destination.port, ep.key()));
+            }
+            got.push(Obs::from_client(&o.sig).render());
+        }
+        if got.len() > 1 {
+            h.anomalies.push(format!("{} results for one segment", got.len()));
+        }
+        let out = got.into_iter().next();
+        if i < pre {
+            if out.is_some() {
+                h.extra_results += 1;
+            }
+        } else {
+            h.outs.push(out);
+        }
+    }
+    h.stalled = t0.elapsed().as_secs_f64() > STALL_LIMIT_S;
+    h
+}
+
 // ------------------------------------------------------------------------------- the oracle
 
 fn seg_lens(total: usize, cuts: &[usize]) -> Vec<usize> {
@@ -635,6 +704,66 @@ fn stage_lookalike(ctx: &mut Ctx, pk: &mut Pk) {
     }
 }
 
+/// The per-worker path: the same history rule for segments dispatched to a worker pool, with
+/// idle gaps (several worker time-outs long, far below the 20 s flow TTL) between segments.
+fn stage_workers(ctx: &mut Ctx, pk: &mut Pk) {
+    if ctx.miri() {
+        return;
+    }
+    crate::pool::install_hooks();
+    let mut r = ctx.rng(870);
+    let rounds = ctx.scale(3, 30, 0);
+    for round in 0..rounds {
+        let cfg = crate::pool::PoolCfg {
+            workers: *r.pick(&[1usize, 2, 4]),
+            queue: 64,
+            batch: *r.pick(&[1usize, 8, 32]),
+            timeout_ms: *r.pick(&[1u64, 2, 4]),
+            max_conn: 1000,
+            with_db: false,
+        };
+        let wp = match Wp::new(cfg) {
+            Ok(w) => w,
+            Err(e) => {
+                ctx.inconclusive(&format!("TLS worker pool could not be created: {e}"));
+                return;
+            }
+        };
+        for j in 0..4u64 {
+            let total = 60 + r.usize(if j == 3 { 4000 } else { 600 });
+            let Some(hl) = hello_of_size(&mut r, total) else { continue };
+            let case = make_case(ctx, pk, "hello-per-worker", &hl);
+            let l = case.rec.len();
+            for e in 0..ctx.scale(5, 12, 0) {
+                let cuts: Vec<usize> = match e % 5 {
+                    0 => vec![5 + r.usize(l - 5)],
+                    1 => vec![l - 1 - r.usize(4.min(l - 6))],
+                    2 => vec![5, 6, 7, l - 2],
+                    _ => {
+                        let k = 2 + r.usize(4);
+                        random_cuts(&mut r, l, k)
+                    }
+                };
+                let cuts = norm(cuts);
+                // idle after a seeded subset of the segments (bit i = idle after frame i)
+                let idle_mask = match e % 3 {
+                    0 => u64::MAX,
+                    1 => r.next_u64(),
+                    _ => 0,
+                };
+                let with_hs = r.chance(1, 3);
+                let h = run_workers(&wp, pk, &case.rec, &cuts, with_hs, idle_mask);
+                let kind = if idle_mask == 0 { "back-to-back" } else { "idle-gaps" };
+                judge_history(ctx, "workers", kind, &case, &case.rec, &cuts, &h);
+                ctx.bucket(&format!("workers/w{}/b{}/t{}/{kind}", cfg.workers, cfg.batch, cfg.timeout_ms));
+            }
+        }
+        wp.h.shutdown();
+        ctx.stage_add("worker_pool_rounds", 1);
+        let _ = round;
+    }
+}
+
 fn stage_random_partitions(ctx: &mut Ctx, pk: &mut Pk, case: &Case, r: &mut Rng, n: u64) {
     let l = case.rec.len();
     for _ in 0..n {
@@ -905,6 +1034,7 @@ pub fn run(ctx: &mut Ctx) {
     stage_two_partitions(ctx, &mut pk);
     ctx.stage("cpu_ms_after_2_partitions", json!((ctx.elapsed() * 1000.0) as u64));
     stage_lookalike(ctx, &mut pk);
+    stage_workers(ctx, &mut pk);
     stage_large(ctx, &mut pk);
     ctx.stage("cpu_ms_total", json!((ctx.elapsed() * 1000.0) as u64));
 }
@@ -914,13 +1044,13 @@ pub fn spec() -> PropSpec {
         id: "C08",
         run,
         shards: super::shards_16,
-        rule: "history oracle over per-segment return values: each episode delivers one TLS record (plus optional bytes after it) as in-order chunks to TlsClientHelloReader::add_bytes and as in-order TCP data segments of one scripted connection to HuginnNetTls::verif_process_packet (distinct client endpoint per episode, fresh analyzer every 256 episodes, IPv4 and IPv6, with and without a preceding TCP handshake); for a ClientHello exactly one result, on the first segment whose cumulative length reaches 5+record length, equal to the one-segment result (itself checked against ref_ja4 and the parse function); no result for non-ClientHello records; every 2-partition of hellos 60 B..4.6 KiB (thorough ..16 KiB), every 3-partition of hellos <= 200 B (thorough 300 B), byte-by-byte, fixed-size and random k-partitions, 16 KiB and 64 KiB class by random partitions; a bucket is a distinct (api, episode kind, corpus, record-length class, segment-count class, first-segment length class and the hello field the first cut falls in, tail length class, bytes-after-record class) combination",
+        rule: "history oracle over per-segment return values: each episode delivers one TLS record (plus optional bytes after it) as in-order chunks to TlsClientHelloReader::add_bytes and as in-order TCP data segments of one scripted connection to HuginnNetTls::verif_process_packet (distinct client endpoint per episode, fresh analyzer every 256 episodes, IPv4 and IPv6, with and without a preceding TCP handshake); for a ClientHello exactly one result, on the first segment whose cumulative length reaches 5+record length, equal to the one-segment result (itself checked against ref_ja4 and the parse function); no result for non-ClientHello records; every 2-partition of hellos 60 B..4.6 KiB (thorough ..16 KiB), every 3-partition of hellos <= 200 B (thorough 300 B), byte-by-byte, fixed-size and random k-partitions, 16 KiB and 64 KiB class by random partitions; the same rule for segments dispatched in lock-step to a TLS worker pool with idle gaps between segments; a bucket is a distinct (api, episode kind, corpus, record-length class, segment-count class, first-segment length class and the hello field the first cut falls in, tail length class, bytes-after-record class) combination",
         assumptions: &[
             "the first segment holds at least the 5-byte record header; segments arrive in order, without loss, duplication or overlap",
             "one TLS record per episode; bytes after the record never contain 0x16, so no later segment begins a new handshake record (a second ClientHello on the connection is outside the judged domain); the only exception is the episode kind 'trailing-hello-like-segment-with-invalid-record-version': a later segment 16 vv vv .. with record version outside 0x0300..=0x0304, which by the analyzer's own is_tls_traffic rule is not a TLS handshake record and therefore counts as bytes after the record",
             "records longer than 2^14 bytes (RFC 8446 §5.1 forbids them) that yield no result in one segment are only required to yield no result when segmented",
             "an Err return of add_bytes / verif_process_packet counts as 'no result'",
-            "the worker-pool path is covered elsewhere",
+            "per-worker path: segments are dispatched one at a time to a TLS WorkerPool (1/2/4 workers, batch 1/8/32, worker time-out 1/2/4 ms), each awaited at the worker's WorkerProcessed hook point; idle gaps of 4 time-outs + 2 ms are inserted after a seeded subset of the segments; an episode that takes more than 5 s of wall time, or whose dispatch is not queued, is inconclusive",
         ],
         parent_stage: None,
     }
